@@ -601,6 +601,8 @@ pub enum Site {
     SatbBarrier = 11,
     /// `WorkBucket::add`: between the push and the notify
     BucketAddBeforeNotify = 12,
+    /// `BlockPageResource::alloc_pages_slow_sync`: before taking the slow-path mutex
+    BprSlowBeforeLock = 13,
 }
 
 /// Arm (seed != 0) or disarm (seed == 0) the yield points.
